@@ -412,6 +412,16 @@ def _check_non_generic_subclass(run: Run, m) -> None:
         tried = any(isinstance(c.func, ast.Name) and c.func.id == "get_inherited" and c.args and strip_sites(fa.term_of(c.args[0])) == tp and fa.cfg.has_node(c) and fa.cfg.dominates(fa.cfg.node_of(c), fa.cfg.node_of(r)) for c in calls_in(bt))
         run.check(tried, "C08.R10", bt, r, "an unparameterised type is refused only after its inherited type was tried", "build_type_dict_from_type gives up on a type that has no parameters of its own without looking at what it inherits from: for class JetList(Coll[Jet]) the variables of Coll stay unresolved and a method declared `-> T` on Coll is typed Any", "inherited = get_inherited(t); if inherited is not Any: return build_type_dict_from_type(inherited, at_class)", key="unparameterised type refused without following its bases")
     run.floor("C08.R10", n_r, 1, "refusals for an unparameterised type")
+    # .. and the search goes on *for the same class*: every recursive call hands `at_class` on unchanged
+    n_rec = 0
+    if len(bt.pos_params) >= 2:
+        acp = ("param", bt.pos_params[1])
+        for c in calls_in(bt):
+            if isinstance(c.func, ast.Name) and c.func.id == bt.name and fa.cfg.has_node(c):
+                n_rec += 1
+                a1 = strip_sites(fa.term_of(c.args[1])) if len(c.args) >= 2 else next((strip_sites(fa.term_of(k.value)) for k in c.keywords if k.arg == bt.pos_params[1]), None)
+                run.check(a1 == acp, "C08.R10", bt, stmt_of(c), "the recursion keeps looking for at_class", f"the search continues in the inherited type with {show(a1)[:60] if a1 else 'no class'} instead of at_class: the bindings of the first parameterised base are returned, not those of the class that declares the method - JetGroups(Grouped[Jet]), Grouped(Base[Iterable[T]]), Base.first() -> T is typed Jet instead of Iterable[Jet]", "build_type_dict_from_type(inherited, at_class)", key="recursion drops at_class")
+    run.floor("C08.R10", n_rec, 2, "recursive steps of build_type_dict_from_type")
 
 
 def strip_visits_attr(t):
